@@ -176,7 +176,7 @@ MAIN_HEAD = """#![allow(warnings)]
 extern crate cfgrammar;
 extern crate lrlex;
 extern crate lrpar;
-#[path = "%s/harness/src/c13_fmt.rs"]
+#[path = "%s/src/c13_fmt.rs"]
 pub mod gv;
 use std::collections::HashMap;
 """
@@ -235,7 +235,7 @@ def write_crate(cdir, d, progs, metas, nbins):
                 groups.append((ed, part))
     names = []
     for b, (ed, prs) in enumerate(groups):
-        src = MAIN_HEAD % core.VERIF
+        src = MAIN_HEAD % core.HARNESS
         for pr in prs:
             src += module_source(d, pr, metas[pr['name']])
         src += MAIN_TAIL % ", ".join('("%s", %s::run as fn(&[String]) -> Vec<String>)' % (pr['name'], pr['name']) for pr in prs)
@@ -356,15 +356,96 @@ def header_fields(flags):
     return out
 
 
+def static_flags_compare(ctx, mexe, items):
+    """items: (name, path of the generated lexer, effective header flags, lexer text, api flags).  The twelve
+    quoted options of the generated lexerdef() are read back, evaluated by the model (run_generated_flags)
+    and compared with the model's regen/fill of the header (proved equal)."""
+    qlines, hlines = [], []
+    for name, path, eff, _, _ in items:
+        found = read_quoted_flags(path)
+        qlines.append("qflags " + " ".join(found.get(k, "?") for k in c13gen.GEN_ORDER))
+        hlines.append("flags " + " ".join(header_fields(eff)))
+    qres = core.run_lines([mexe], qlines, shards=1) if qlines else []
+    hres = core.run_lines([mexe], hlines, shards=1) if hlines else []
+    ok = True
+    nrep = 0
+    for (name, path, eff, ltxt, api), ql, qa, ha in zip(items, qlines, qres, hres):
+        regen, fill = [x.strip() for x in ha.split("|")] if "|" in ha else (ha, ha)
+        ctx.case("flags %s %s %s" % (sorted(eff.items()), sorted(api.items()), ql), bool(eff),
+                 {"kind": "flags", "header": eff, "via_api": api, "generated_quoted": ql, "evaluated": qa}
+                 if len(ctx.samples) < 3 else None)
+        ctx.count("static_flag_headers")
+        if "?" in ql or not (qa == regen == fill):
+            ok = False
+            ctx.count("static_flag_mismatches")
+            nrep += 1
+            if nrep > 3:                       # leave room for input-level witnesses among the replays
+                continue
+            ctx.violation({"kind": "counterexample", "clause": "flag propagation into the generated lexerdef()",
+                           "lexer": ltxt, "builder_api_flags": api, "header_flags": eff,
+                           "generated_assignments(order %s)" % ",".join(c13gen.GEN_ORDER): ql,
+                           "flags_of_generated_lexer": qa, "flags_of_run_time_lexer": fill,
+                           "order": ",".join(c13gen.ALL_FLAGS),
+                           "consequence": "the compiled lexer builds its regexes with other flags than the run-time lexer "
+                                          "(LRNonStreamingLexerDef::from_str on the same source)",
+                           "authority": "C13_lexerdef_flags_roundtrip / C13_fill_spec"})
+    return ok
+
+
+def static_flags_part(ctx, exe, mexe, d):
+    """generation only (no rustc): one lexer per header of c13gen.static_flag_specs()"""
+    sd = os.path.join(d, "lf")
+    os.makedirs(sd)
+    specs = c13gen.static_flag_specs()
+    lines, items = [], []
+    for i, (flags, via) in enumerate(specs):
+        txt, api = c13gen.static_lexer(flags, via)
+        open("%s/lf%d.l" % (sd, i), "w").write(txt)
+        l = "lexgen %s lf%d" % (hx(sd), i)
+        for k in c13gen.ALL_FLAGS:
+            if k in api:
+                l += " lf:%s=%d" % (k, int(api[k]))
+        lines.append(l)
+        items.append(("lf%d" % i, "%s/lf%d.l.rs" % (sd, i), flags, txt, api))
+    res = core.run_lines([exe], lines)
+    good = []
+    nrej = 0
+    for it, r in zip(items, res):
+        if r.startswith("OK"):
+            good.append(it)
+        elif r.startswith("PANIC"):
+            ctx.violation({"kind": "correspondence-only", "what": "CTLexerBuilder panics", "lexer": it[3], "api": it[4],
+                           "panic": unhx(r.split()[1]) if len(r.split()) > 1 else r}, no_input=True)
+        else:
+            nrej += 1
+    ctx.count("static_flag_headers_rejected", nrej)
+    ok = static_flags_compare(ctx, mexe, good)
+    # every flag must have been seen alone with a non-default value
+    # every flag must have been seen alone with every value (in particular its non-default one), both ways
+    alone = {(k, str(v), bool(api)) for _, _, eff, _, api in good if len(eff) == 1 for k, v in eff.items()}
+    want = {(k, str(v), bool(api)) for f, via in specs if len(f) == 1 for k, v in f.items() for api in [via == "api"]}
+    if alone != want:
+        ctx.violation({"kind": "correspondence-only", "what": "CTLexerBuilder rejects lexers of the static flag sweep that it accepts "
+                       "on the unchanged tree", "missing": sorted(map(str, want - alone))}, no_input=True)
+    ctx.oblige(ok and alone == want, "flags correspondence (every flag alone, section and API, and pairs)")
+    return len(good)
+
+
 def plan(ctx):
     """programs of this run: every family under every yacc kind first, then random ones"""
     rng = ctx.rng
     progs = []
-    fams = c13gen.FAMILIES
-    first = [(c13gen.fam_expr, "G"), (c13gen.fam_insert, "U"), (c13gen.fam_long, "G"), (c13gen.fam_flags, "G"),
-             (c13gen.fam_list, "O"), (c13gen.fam_flags, "U"), (c13gen.fam_list, "G"), (c13gen.fam_insert, "G"),
-             (c13gen.fam_flags, "O"), (c13gen.fam_random, "G"), (c13gen.fam_expr, "U"), (c13gen.fam_flags, "G"),
-             (c13gen.fam_states, "G"), (c13gen.fam_states, "O")]
+    def ff(variant, via):
+        return lambda r: c13gen.fam_flags(r, variant=variant, value=c13gen.NON_DEFAULT.get(variant), via=via)
+    # one compiled program per behaviour-changing flag at its NON-default value, with rules and inputs
+    # that are sensitive to that single flag (section and API alternate), then the other families
+    first = [(ff(v, "section" if i % 2 == 0 else "api"), "GUO"[i % 3])
+             for i, v in enumerate(["dot", "ml", "ci", "greed", "iw", "posix", "uni", "nums", "cmt"])]
+    first += [(ff("dot", "api"), "G"), (ff("ml", "section"), "U")]
+    first += [(c13gen.fam_expr, "G"), (c13gen.fam_insert, "U"), (c13gen.fam_long, "G"),
+              (c13gen.fam_list, "O"), (c13gen.fam_list, "G"), (c13gen.fam_insert, "G"),
+              (c13gen.fam_random, "G"), (c13gen.fam_expr, "U"),
+              (c13gen.fam_states, "G"), (c13gen.fam_states, "O")]
     k = ctx.n(48, 300)
     for i in range(k):
         if i < len(first):
@@ -452,28 +533,9 @@ def pipeline_part(ctx, exe, mexe, d):
     ctx.count("programs_accepted", len(accepted))
 
     # ---- static: the quoted flags of every generated lexerdef() ----
-    qlines, hlines = [], []
-    for pr in accepted:
-        found = read_quoted_flags("%s/%s.l.rs" % (d, pr['name']))
-        qlines.append("qflags " + " ".join(found.get(k, "?") for k in c13gen.GEN_ORDER))
-        hlines.append("flags " + " ".join(header_fields(c13gen.effective_flags(pr))))
-    qres = core.run_lines([mexe], qlines, shards=1) if qlines else []
-    hres = core.run_lines([mexe], hlines, shards=1) if hlines else []
-    flags_ok = True
-    for pr, ql, qa, ha in zip(accepted, qlines, qres, hres):
-        regen, fill = [x.strip() for x in ha.split("|")] if "|" in ha else (ha, ha)
-        eff = c13gen.effective_flags(pr)
-        ctx.case("flags %s %s" % (pr['name'], ql), bool(eff), {"kind": "flags", "header": eff, "generated_quoted": ql, "evaluated": qa}
-                 if len(ctx.samples) < 3 else None)
-        if "?" in ql or not (qa == regen == fill):
-            flags_ok = False
-            ctx.violation({"kind": "counterexample", "clause": "flag propagation into the generated lexerdef()",
-                           "lexer": c13gen.render_l(pr), "builder_api_flags": pr['lex_api'],
-                           "generated_assignments(order %s)" % ",".join(c13gen.GEN_ORDER): ql,
-                           "flags_of_generated_lexer": qa, "flags_of_run_time_lexer": fill,
-                           "order": ",".join(c13gen.ALL_FLAGS),
-                           "authority": "C13_lexerdef_flags_roundtrip / C13_fill_spec"})
-    ctx.oblige(flags_ok, "flags correspondence")
+    flags_ok = static_flags_compare(ctx, mexe, [(pr['name'], "%s/%s.l.rs" % (d, pr['name']), c13gen.effective_flags(pr),
+                                                 c13gen.render_l(pr), pr['lex_api']) for pr in accepted])
+    ctx.oblige(flags_ok, "flags correspondence (compiled programs)")
 
     # ---- compile (one cargo invocation per pass, targets in parallel), run ----
     cdir = os.path.join(d, "crate")
@@ -647,29 +709,34 @@ def run(ctx):
         ctx.oblige(True)
     exe = core.build_harness("c13")
     mexe = core.build_model("c13")
-    d = os.path.join(core.WORK, "c13", "b%d_%s" % (ctx.seed, ctx.tier))
+    base = os.path.join(core.SCRATCH if core.SCRATCH else core.WORK, "c13")
+    d = os.path.join(base, "b%d_%s" % (ctx.seed, ctx.tier))
     shutil.rmtree(d, ignore_errors=True)
     os.makedirs(os.path.join(d, "subst"))
     try:
         ntexts = scanner_part(ctx, exe, mexe, os.path.join(d, "subst"))
+        nstatic = static_flags_part(ctx, exe, mexe, d)
         nprog, stats, skipped = pipeline_part(ctx, exe, mexe, d)
     finally:
         if not os.environ.get("C13_KEEP"):
-            shutil.rmtree(os.path.join(core.WORK, "c13"), ignore_errors=True)
+            shutil.rmtree(base, ignore_errors=True)
             clean_artifacts()
     ctx.coverage["programs"] = nprog
     ctx.coverage["disagreements_checked"] = stats['inputs']
     ctx.coverage["exhaustive"] = False
     ctx.coverage["rule"] = (
         "scanner: %d action texts (corpus, all pairs of `$`-pieces, random mixtures incl. non-ASCII numeric characters), "
-        "non-trivial = at least two `$`; pipeline: %d generated programs (grammar/lexer family x yacc kind x recoverer x "
+        "non-trivial = at least two `$`; flags (static, generation only): %d lexers, every flag set alone (each boolean value; "
+        "section and builder API) and every pair of boolean flags with differing values, the quoted options of lexerdef() read back "
+        "and evaluated by the model; pipeline (the first programs: one per behaviour-changing flag at its non-default value with "
+        "rules and inputs sensitive to it): %d generated programs (grammar/lexer family x yacc kind x recoverer x "
         "serialisation format x edition x visibility x module names x lexer flags via %%grmtools section or builder API) "
         "compiled in one throw-away crate, each run on sentences, near-sentences and flag-sensitive inputs; a case = "
         "(program, settings, input), distinct by its full text, non-trivial = input of at least 3 words; values are "
         "compared when every error has at most one repair sequence (%d inputs skipped the value/later-error comparison "
         "because the applied repair is not determined), %d compared values contain an Err($k) for an inserted lexeme; "
         "%d specifications rejected by the builders (random grammars with conflicts) were skipped" % (
-            ntexts, nprog, stats['nondet_skipped'], stats['err_values'], skipped))
+            ntexts, nstatic, nprog, stats['nondet_skipped'], stats['err_values'], skipped))
     ctx.coverage["explanation"] = (
         "level 'proof' is claimed for the Coq-carried parts only: the `$`-substitution scanner (all texts), the wrapper's "
         "argument unpacking and `$k` binding (all productions), flag propagation (all headers). The equivalence of the two "
